@@ -25,7 +25,7 @@ Task: produce {n} DIFFERENT changes (different mechanisms / code sites) to the p
        export GOPROXY=off GOTOOLCHAIN=local GOSUMDB=off
        (cd /tmp/wt-{pid} && go build ./... && go test -vet=off -count=1 ./...)
        (cd /tmp/wt-{pid}/tests && go test -vet=off -count=1 ./...)
-       (cd /tmp/wt-{pid}/tests/helpers/other && GOFLAGS=-mod=mod go test -vet=off -count=1 ./...)
+       (cd /tmp/wt-{pid}/tests/helpers/other && GOWORK=off GOFLAGS=-mod=mod go test -vet=off -count=1 ./...)
   3. breaks the property above, but only under something SPECIFIC: an unusual input or combination of schema features/options, a multi-step sequence, a particular ordering, two cooperating code sites that each look fine alone, a boundary value, etc. Not something ordinary use or the golden tests would expose at once. Think of the kind of subtle regression a real maintainer could introduce in a refactoring or "small improvement".
   4. comes with a demonstration that FAILS with the change and PASSES on the clean tree: a small self-contained shell script demo.sh that takes the path of a go-jsonschema source tree as $1, builds the CLI from it (go build -o <tmp>/gjs $1), generates code for a schema, and (where the property is about runtime behaviour of generated code) compiles and runs a tiny Go program against the generated code, exiting 0 when the property holds and 1 when it is violated. For building generated code use a temp module with `replace github.com/atombender/go-jsonschema => $1` and env GOFLAGS=-mod=mod GOWORK=off GOPROXY=off; copy go.sum lines from $1/go.sum and $1/tests/go.sum (the module cache already holds yaml.v3 and github.com/go-viper/mapstructure/v2 v2.1.0; nothing can be downloaded).
 
